@@ -1062,6 +1062,14 @@ class Universe(object):
                                    "before": repr(abefore)[:300],
                                    "after": repr(snap(a))[:300]},
                           key_args(qual))
+                # ... nor the object it was called on (the documented
+                # mutators excepted)
+                if recv is not None and short not in MUTATORS:
+                    mon.check("receiver-unchanged", snap(recv) == snap(inst),
+                              lambda: {"target": qual, "refused_probe": what,
+                                       "position": idx,
+                                       "before": repr(snap(inst))[:300],
+                                       "after": repr(snap(recv))[:300]})
                 continue
             except Exception as ex:
                 mon.dev("illtyped->TypeError|ValueError",
